@@ -451,9 +451,10 @@ type idList struct {
 var smallLens = []int{0, 1, 1, 1, 1, 2, 2, 2, 3, 3, 5, 8}
 
 // msgIDList builds the list argument of a message-list method.
-//   prefer        ids the operation is "about" (members of the mailbox, messages carrying the flag, …)
-//   unknownPct    chance per element (small) / chance per list (bulk) of ids that exist nowhere
-//   allowDup      whether an id may occur twice
+//
+//	prefer        ids the operation is "about" (members of the mailbox, messages carrying the flag, …)
+//	unknownPct    chance per element (small) / chance per list (bulk) of ids that exist nowhere
+//	allowDup      whether an id may occur twice
 func (g *genCtx) msgIDList(prefer []imap.InternalMessageID, unknownPct int, allowDup bool) idList {
 	if g.bulk >= 0 {
 		return g.bulkIDList(prefer, unknownPct, false)
